@@ -63,6 +63,24 @@ def main(argv=None):
     if args.replay:
         with open(args.replay) as fh:
             doc = json.load(fh)
+        if doc.get("key") == "does-not-terminate" and "source" in doc["case"]:
+            # a case that killed its worker: render it in a child process under a hard time limit
+            import subprocess
+
+            code = ("import sys, json; sys.path.insert(0, %r); sys.path.insert(1, %r)\n"
+                    "from vf.gen import trun\nc = json.load(open(sys.argv[1]))['case']\n"
+                    "print(trun.run_mako(c['source'], **c.get('kw', {}))[0])" % (core.REPO, core.VERIF))
+            try:
+                r = subprocess.run([sys.executable, "-c", code, args.replay], timeout=120, stdout=subprocess.PIPE, stderr=subprocess.STDOUT, text=True)
+                ended = r.returncode == 0 and r.stdout.strip().splitlines()[-1:] in (["ok"], ["exc"])
+            except subprocess.TimeoutExpired:
+                ended = False
+            if ended:
+                print("replay: the render terminated this time")
+                return 0
+            print("detail: the render of this template did not terminate within its CPU budget / had to be killed")
+            print("VIOLATION property=%s replay=%s" % (pid, args.replay))
+            return 1
         try:
             f = mod.replay(doc["case"])
         except Exception:
@@ -106,6 +124,9 @@ def main(argv=None):
             ctx.ev.excluded_known[kid] += 0
             continue
         if f.key in viol:
+            continue
+        if f.info.get("no_confirm"):
+            viol[f.key] = f  # the case killed its worker; re-running it here would hang this process too
             continue
         # re-run from the serialised form: guards against state leaking between cases
         try:
